@@ -398,6 +398,15 @@ func (x *Exec) applyContract(fr *Frame, st *State, ct *Contract, key string, sig
 		// the callee may panic instead of returning: a second path unwinds from here
 		ps := st.clone()
 		x.branch(func() {
+			if ct.PanicsUnless != nil {
+				pev := x.newEval(fr, ps, nil)
+				pev.callee = true
+				for n, v := range ev.bind {
+					pev.bind[n] = v
+					pev.bindT[n] = ev.bindT[n]
+				}
+				ps.assume(Not(pev.boolExpr(ct.PanicsUnless)))
+			}
 			x.havocAssigns(fr, ps, ct, ev, key)
 			x.doPanic(fr, ps, pos, false)
 		})
@@ -555,6 +564,11 @@ func (x *Exec) pureResults(st *State, key string, sig *types.Signature, args []V
 func (x *Exec) havocAssigns(fr *Frame, st *State, ct *Contract, ev *Eval, key string) {
 	for _, a := range ct.Assigns {
 		a = x.prog.cs.expand(a)
+		exExpr := ""
+		if i := strings.Index(a, " except "); i >= 0 {
+			exExpr = strings.TrimSpace(a[i+len(" except "):])
+			a = strings.TrimSpace(a[:i])
+		}
 		at := ""
 		if i := strings.Index(a, "@"); i >= 0 {
 			at = a[i+1:]
@@ -645,6 +659,30 @@ func (x *Exec) havocAssigns(fr *Frame, st *State, ct *Contract, ev *Eval, key st
 				st.assume(Eq(st.heap[k], Store(old, objRef, Select(fresh, objRef))))
 			} else {
 				st.heap[k] = fresh
+			}
+			if exExpr != "" && strings.HasPrefix(old.Sort, "(Array Int ") {
+				// the excepted object keeps its contents
+				e, err := x.prog.cs.parseExpr(exExpr)
+				if err != nil {
+					x.abort("assigns except %s: %v", exExpr, err)
+				}
+				st.quiet++
+				v := ev.eval(e)
+				st.quiet--
+				var exRef Term
+				switch w := v.(type) {
+				case *PtrV:
+					exRef = x.refOf(st, w.Loc)
+				case *IfaceV:
+					exRef = w.Data
+				case *SliceV:
+					exRef = w.Ptr
+				case *Prim:
+					exRef = w.T
+				default:
+					x.abort("assigns except %s: not a reference", exExpr)
+				}
+				st.assume(Eq(Select(st.heap[k], exRef), Select(old, exRef)))
 			}
 		}
 	}
